@@ -161,13 +161,21 @@ def make_group(rng, kind_bias=None, variant=None):
     Returns dict(abbr, cfgs={name: cfg}, checks=[(kind, name_a, name_b)]).
     variant 'fields': values with fields (c12_classes, class 1) -- content checks only, the indentation of a value
     that is split around children is the subject of listed findings;
-    variant 'case': element names in every case shape, list options with near-miss entries (c12_classes, class 2)."""
-    level = 'depth' if rng.random() < (0.5 if variant == 'case' else 0.35) else 'c12'
+    variant 'case': element names in every case shape, list options with near-miss entries (c12_classes, class 2);
+    variant 'lines': multi-line values with LF / CRLF / bare CR line ends in element texts, text nodes, attribute
+    values and in the text handed over for wrapping (config `text`: string / list) (c12_classes, class 3);
+    variant 'attrs': class / id shorthands in every multiplicity under the syntax presets and user-given
+    markup.attributes / markup.valuePrefix maps (c12_classes, class 4)."""
+    level = 'depth' if rng.random() < (0.5 if variant in ('case', 'lines') else 0.35) else 'c12'
     listed = False
     cased_names = None
     if variant == 'fields':
         level = 'c12'
         abbr = cc.rand_field_abbr(rng)
+    elif variant == 'lines':
+        abbr = g.render(cc.rand_lines_stmt(rng, level))
+    elif variant == 'attrs':
+        abbr = g.render(cc.rand_shorthand_stmt(rng, level))
     elif variant == 'case':
         st = cc.rand_cased_stmt(rng, level)
         abbr = g.render(st)
@@ -183,6 +191,10 @@ def make_group(rng, kind_bias=None, variant=None):
         # the cosmetic list options draw from the exact names AND from their near misses (other case shapes)
         names = sorted(cased_names)[:6] + cc.near_miss_list(rng, cased_names)
     base = fu.rand_base(rng)
+    if variant == 'lines' and rng.random() < 0.4:
+        base['text'] = cc.rand_wrap_text(rng)       # an input, not an option: the same in every run of the group
+    if variant == 'attrs':
+        base['options'].update(cc.rand_attr_maps(rng, base['syntax']))      # not cosmetic: the same in every run
     k1 = fu.rand_cosmetic(rng, names)
     k2 = fu.rand_cosmetic(rng, names)
     cfgs = {'a': fu.with_options(base, k1), 'b': fu.with_options(base, k2)}
@@ -398,6 +410,53 @@ def add_name_case_groups(ctx, rng, groups):
     ctx.cov['name_case_groups'] = {'sweep': n_sw, 'random': n}
 
 
+def add_line_separator_groups(ctx, rng, groups):
+    """Class 3 of c12_classes: line ends LF / CRLF / bare CR (alone, mixed, doubled, leading, trailing) in element
+    texts, text nodes, attribute values and in the wrap text of the config (string / list).  A deterministic sweep of
+    every spelling x host with a cosmetic pair and the depth check, then random statements."""
+    quick = ctx.tier == 'quick'
+    n_sw = 0
+    for k, (abbr, wrap, opts, _nm) in enumerate(cc.line_separator_sweep()):
+        syn = fu.HTML_SYNTAXES[k % len(fu.HTML_SYNTAXES)]
+        d = {'syntax': syn, 'options': dict(opts, **{'output.format': True, 'output.formatSkip': [],
+                                                     'output.selfClosingStyle': 'xhtml'})}
+        a = {'syntax': syn, 'options': {'output.format': False, 'output.selfClosingStyle': 'xhtml'}}
+        if wrap is not None:
+            d['text'] = a['text'] = wrap
+        checks = [('cosmetic', 'a', 'd'), ('depth', 'd', None)]
+        if '="' in abbr and not cc.LINE_BREAKS_IN_ATTRIBUTE_VALUES_COSMETIC:
+            checks = checks[1:]         # a multi-line attribute value: indentation only (see the switch in c12_classes)
+        groups.append({'abbr': abbr, 'cfgs': {'a': a, 'd': d}, 'checks': checks, 'variant': 'lines'})
+        n_sw += 1
+    n = 90 if quick else 1200
+    for _ in range(n):
+        groups.append(make_group(rng, variant='lines'))
+    ctx.cov['line_separator_groups'] = {'sweep': n_sw, 'random': n}
+
+
+def add_shorthand_groups(ctx, rng, groups):
+    """Class 4 of c12_classes: class / id shorthands in every multiplicity x syntax presets and user attribute maps,
+    as one-shot expansions (compared with the model like every other group)."""
+    quick = ctx.tier == 'quick'
+    n_sw = 0
+    for k, abbr in enumerate(cc.shorthand_sweep()):
+        syn = ['jsx', 'vue', 'html', 'jsx', 'xml', 'svelte'][k % 6]
+        base = {'syntax': syn, 'options': {'output.selfClosingStyle': 'xhtml'}}
+        if k % 4 == 1 or syn in ('html', 'xml', 'svelte'):
+            base['options']['markup.valuePrefix'] = dict(cc.USER_PREFIX_MAPS[k % len(cc.USER_PREFIX_MAPS)])
+        if k % 4 == 3:
+            base['options']['markup.attributes'] = dict(cc.USER_ATTR_MAPS[k % len(cc.USER_ATTR_MAPS)])
+        a = fu.with_options(base, {'output.format': False})
+        d = fu.with_options(base, {'output.format': True, 'output.formatSkip': [], 'output.indent': ['\t', '  '][k % 2]})
+        groups.append({'abbr': abbr, 'cfgs': {'a': a, 'd': d}, 'checks': [('cosmetic', 'a', 'd'), ('depth', 'd', None)],
+                       'variant': 'attrs'})
+        n_sw += 1
+    n = 50 if quick else 800
+    for _ in range(n):
+        groups.append(make_group(rng, variant='attrs'))
+    ctx.cov['shorthand_attribute_groups'] = {'sweep': n_sw, 'random': n}
+
+
 FIELD_IN_VALUE_RE = re.compile(r'\$\{\d+(?::[^{}]*)?\}')
 
 
@@ -414,6 +473,24 @@ def cover_new_classes(ctx, kind, gr, cfg_a, ra):
             ctx.cover('C12:field-values-text-node-with-children')
         if re.search(r'[\w\]]\{[^{}]*\$\{[^{}]*\}[^{}]*(\$\{[^{}]*\}[^{}]*)*\}(\*\d+)?>', abbr):
             ctx.cover('C12:field-values-element-text-with-children')
+    if gr.get('variant') == 'lines' and kind in ('depth', 'cosmetic') and ra[0] == 'ok':
+        wrap = cfg_a.get('text')
+        texts = [abbr] + ([wrap] if isinstance(wrap, str) else list(wrap or []))
+        for nm in sorted(set(x for t in texts for x in cc.text_seps(t))):
+            ctx.cover('C12:line-ends-%s-%s' % (kind, nm))
+        if wrap is not None:
+            ctx.cover('C12:line-ends-%s-wrap-text-%s' % (kind, 'string' if isinstance(wrap, str) else 'list'))
+        if kind == 'depth' and not depth_premise(abbr, ra[1], cfg_a):
+            ctx.cover('C12:line-ends-depth-premise-not-met')
+    if gr.get('variant') == 'attrs' and kind == 'cosmetic':
+        ctx.cover('C12:shorthand-attributes')
+        o = cfg_a.get('options') or {}
+        if '..' in abbr or '##' in abbr:
+            ctx.cover('C12:shorthand-attributes-multiple')
+        if 'markup.valuePrefix' in o:
+            ctx.cover('C12:shorthand-attributes-user-valuePrefix')
+        if 'markup.attributes' in o:
+            ctx.cover('C12:shorthand-attributes-user-attribute-names')
     if gr.get('variant') == 'case':
         if kind == 'depth' and ra[0] == 'ok':
             o = co.in_force(cfg_a)
@@ -510,6 +587,136 @@ def shared_cache_sequences(ctx):
     ctx.cov['shared_cache_sequences'] = n
 
 
+# ---------------------------------------------------------------- one parsed tree, many renderings
+def render_sequence(abbr, cfgs):
+    """emmet.markup.parse once (under cfgs[0]), emmet.markup.stringify of THAT tree under every configuration in turn;
+    next to each rendering the one-shot emmet.expand under the same configuration.
+    Returns ('ok', [rendering...], [one-shot...]) or ('err', text) when the abbreviation does not parse."""
+    from emmet import expand
+    from emmet.config import Config
+    from emmet.markup import parse, stringify
+    from common import time_limit, Hang
+    from markup_util import CALL_LIMIT_S
+    with time_limit(CALL_LIMIT_S):
+        try:
+            tree = parse(abbr, Config(copy.deepcopy(cfgs[0])))
+        except Hang:
+            raise
+        except Exception as e:  # noqa
+            return ('err', type(e).__name__)
+        outs, fresh = [], []
+        for c in cfgs:
+            outs.append(stringify(tree, Config(copy.deepcopy(c))))
+            fresh.append(expand(abbr, copy.deepcopy(c)))
+    return ('ok', outs, fresh)
+
+
+def oracle_sequence(cfgs, outs, fresh):
+    """The first sentence of the statement on the renderings of one tree: the configurations differ in cosmetic
+    options only, so every rendering has the content of the first one -- and of the one-shot expansion under the
+    same configuration.  Returns (step, text) or None."""
+    for i in range(len(outs)):
+        if i:
+            bad = oracle_cosmetic(outs[0], outs[i])
+            if bad:
+                return i, 'rendering 0 and rendering %d of the same tree differ in more than whitespace: %s' % (i, bad)
+        bad = oracle_cosmetic(fresh[i], outs[i])
+        if bad:
+            return i, ('rendering %d of the re-used tree differs in more than whitespace from the one-shot expansion under '
+                       'the same options: %s' % (i, bad))
+    return None
+
+
+def rand_sequence_case(rng):
+    """(abbr, [cfg...]): an abbreviation of any class (plain statement, shorthand attributes, values with fields,
+    multi-line values, document snippets) and 2-4 configurations over ONE non-cosmetic base (syntax, comment options,
+    cases, quotes, user attribute maps, wrap text) that differ in cosmetic options only."""
+    k = rng.random()
+    if k < 0.4:
+        abbr = g.render(cc.rand_shorthand_stmt(rng))
+    elif k < 0.55:
+        abbr = cc.rand_field_abbr(rng)
+    elif k < 0.7:
+        abbr = g.render(cc.rand_lines_stmt(rng, 'c12'))
+    elif k < 0.8:
+        abbr = rand_depth_abbr(rng)[0]
+    else:
+        abbr = g.render(fu.rand_abbr(rng, 'c12'))
+    base = fu.rand_base(rng)
+    if rng.random() < 0.5:
+        base['options'].update(cc.rand_attr_maps(rng, base['syntax']))
+    if rng.random() < 0.1:
+        base['text'] = cc.rand_wrap_text(rng)
+    names = sorted(set(re.findall(r'[a-z][a-z0-9:\-]*', abbr)))[:8]
+    cfgs = [fu.with_options(base, fu.rand_cosmetic(rng, names)) for _ in range(rng.randint(2, 4))]
+    return abbr, cfgs
+
+
+SEQ_OPTION_SETS = [{'output.format': True}, {'output.format': False},
+                   {'output.format': True, 'output.indent': '  ', 'output.baseIndent': '  ', 'output.newline': '\r\n'},
+                   {'output.format': True, 'output.inlineBreak': 1, 'output.formatLeafNode': True},
+                   {'output.format': True, 'output.formatSkip': [], 'output.formatForce': []}]
+
+
+def tree_reuse_sequences(ctx):
+    """Class 5 of c12_classes: the two-step route emmet.markup.parse -> emmet.markup.stringify with ONE tree rendered
+    under several cosmetic option sets (implementation and oracle only: the model is a function of abbreviation and
+    configuration, a tree that is rendered twice has no counterpart there)."""
+    rng = ctx.rng
+    quick = ctx.tier == 'quick'
+    todo = []
+    # deterministic part: shorthand / xsl / snippet / field / multi-line abbreviations x every syntax, the option sets
+    # rotated so that every set is first, second, ... once
+    fixed = list(cc.shorthand_sweep())[::3 if quick else 1] + [
+        'xsl:variable[select]>a', 'vare>x', 'xsl:with-param[select=x]{t}', 'ul>li.item$*2>a{t$}', '!', 'a+img+input[disabled.]',
+        'p{a ${1} b}>em', 'div>p{one\rtwo}', 'label>input', 'div#i.c>p.k', 'table>.row>.col', 'bq>{t}']
+    for k, abbr in enumerate(fixed):
+        syn = fu.HTML_SYNTAXES[k % len(fu.HTML_SYNTAXES)] if k % 2 else ['jsx', 'vue', 'xsl'][k % 3]
+        base = {'syntax': syn, 'options': {}}
+        if k % 5 == 0:
+            base['options']['comment.enabled'] = True
+        if k % 7 == 3 or syn in ('html', 'xml'):
+            base['options']['markup.valuePrefix'] = dict(cc.USER_PREFIX_MAPS[k % len(cc.USER_PREFIX_MAPS)])
+        r = k % len(SEQ_OPTION_SETS)
+        seq = SEQ_OPTION_SETS[r:] + SEQ_OPTION_SETS[:r]
+        todo.append((abbr, [fu.with_options(base, o) for o in seq[:3 if quick else 5]]))
+    n_fixed = len(todo)
+    for _ in range(140 if quick else 2500):
+        todo.append(rand_sequence_case(rng))
+    n_ok = 0
+    for abbr, cfgs in todo:
+        if mentions_lorem(abbr, cfgs[0]):
+            continue
+        try:
+            r = render_sequence(abbr, cfgs)
+        except Exception as e:  # noqa
+            r = ('raised', '%s: %s' % (type(e).__name__, e))
+        ctx.count_eval()
+        ctx.cover('C12:tree-reuse-%s' % r[0])
+        bad = None
+        if r[0] == 'raised':
+            # the abbreviation parsed; a rendering (or the one-shot expansion) of it raised
+            bad = (0, 'parse succeeded, a later step raised %s' % r[1])
+        elif r[0] == 'ok':
+            n_ok += 1
+            ctx.cover('C12:tree-reuse-renderings-%d' % len(cfgs))
+            ctx.cover('C12:tree-reuse-syntax-' + cfgs[0].get('syntax', 'html'))
+            if '..' in abbr:
+                ctx.cover('C12:tree-reuse-multiple-shorthand')
+            if 'markup.valuePrefix' in cfgs[0]['options'] or 'markup.attributes' in cfgs[0]['options']:
+                ctx.cover('C12:tree-reuse-user-attribute-maps')
+            if r[1][0].count('<') >= 3:
+                ctx.nontrivial((abbr, canon_cfg(cfgs[0]), 'tree-reuse'))
+            bad = oracle_sequence(cfgs, r[1], r[2])
+        if bad:
+            step, why = bad
+            ctx.property_failure('C12:tree-reuse|%s|%s' % (abbr, '|'.join(canon_cfg(c) for c in cfgs[:step + 1])),
+                                 'C12 one tree, many renderings: parse(%r) under %s, stringify of that tree under %d option set(s) '
+                                 'differing in cosmetic options only: %s' % (abbr, canon_cfg(cfgs[0]), step + 1, why),
+                                 {'component': 'C12', 'kind': 'tree-reuse', 'abbr': abbr, 'sequence': cfgs[:step + 1], 'why': why})
+    ctx.cov['tree_reuse_sequences'] = {'fixed': n_fixed, 'random': len(todo) - n_fixed, 'rendered': n_ok}
+
+
 def run(ctx):
     ok = ctx.build(['props/C12.vo', 'run/MarkupRun.vo', 'run/DepthRun.vo'])
     if ok:
@@ -548,6 +755,24 @@ def run(ctx):
         'abbreviation ignoring case but are not that name). The premise "no element exempted through formatSkip" is '
         'evaluated by the oracle itself: an element is exempted iff its exact name is an entry of the list in force '
         '(read from the words of the abbreviation and the element names of the output, never from the library). '
+        'Line ends (class 3): multi-line values whose lines end in LF, CR LF or a bare CR -- alone, mixed in one value, '
+        'doubled (empty line), leading, trailing -- as text of block / inline elements with and without children, as '
+        'bare text nodes (first / last / only child, top level, repeated), as quoted attribute values (indentation '
+        'check only: the cosmetic comparison of multi-line attribute values is switched off, see '
+        'c12_classes.LINE_BREAKS_IN_ATTRIBUTE_VALUES_COSMETIC) and as the text handed over for wrapping (config `text`: '
+        'one string with line ends, the list of its lines, a list whose items have line ends): a deterministic sweep '
+        'of 11 spellings x 16 hosts + 8 wrap abbreviations x rotating option sets and syntaxes with the cosmetic and '
+        'the depth oracle, and random statements whose multi-line values get every line end re-drawn (40% of them '
+        'with a wrap text). '
+        'Shorthand attributes (class 4): `.c`, `..c` (multiple), `.a..b`, `#i`, `##i`, implicit names, class names that '
+        'are / are not property keys, under the documented jsx / vue presets and under user-given markup.attributes / '
+        'markup.valuePrefix maps with plain and starred keys in every syntax (sweep + random, compared with the model). '
+        'Call sequences (class 5): ONE tree from emmet.markup.parse rendered by emmet.markup.stringify under 2-5 '
+        'configurations that differ in cosmetic options only (abbreviations of every class above x random non-cosmetic '
+        'base incl. user attribute maps; fixed part: shorthand sweep, xsl, snippets, fields, every option set in every '
+        'position): each rendering must have the content of the first rendering and of the one-shot expand under the '
+        'same options.  Implementation and oracle only -- the model is a function of (abbreviation, configuration), a '
+        'tree rendered twice has no counterpart there; likewise the shared-cache sequences. '
         'non-trivial = at least two elements in the output; distinct by (abbreviation, configuration).')
     rng = ctx.rng
     groups = []
@@ -615,6 +840,8 @@ def run(ctx):
         groups.append(make_group(rng))
     add_field_value_groups(ctx, rng, groups)
     add_name_case_groups(ctx, rng, groups)
+    add_line_separator_groups(ctx, rng, groups)
+    add_shorthand_groups(ctx, rng, groups)
     cases = []
     index = {}
     for gi, gr in enumerate(groups):
@@ -647,6 +874,7 @@ def run(ctx):
                     {'component': 'C12', 'kind': kind, 'abbr': abbr, 'cfg_a': cfg_a, 'cfg_b': cfg_b, 'why': bad})
     theorem_domain_check(ctx, dom_model, groups, impl, index)
     shared_cache_sequences(ctx)
+    tree_reuse_sequences(ctx)
     for gr in groups[n_fixed + 3:n_fixed + 7]:
         r = impl[index[(groups.index(gr), 'a')]]
         ctx.sample({'abbr': gr['abbr'], 'config_a': gr['cfgs']['a'], 'config_b': gr['cfgs']['b'],
@@ -716,6 +944,21 @@ def replay(ctx, obj):
             if got != want:
                 bad = 'with shared cache %r, without %r' % (got, want)
         print('C12 shared-cache sequence on %r: %s' % (rp['abbr'], bad or 'property holds'))
+        return 1 if bad else 0
+    if rp.get('kind') == 'tree-reuse':
+        try:
+            r = render_sequence(rp['abbr'], rp['sequence'])
+        except Exception as e:  # noqa
+            r = ('raised', '%s: %s' % (type(e).__name__, e))
+        bad = None
+        if r[0] == 'raised':
+            bad = (0, 'parse succeeded, a later step raised %s' % r[1])
+        elif r[0] == 'ok':
+            bad = oracle_sequence(rp['sequence'], r[1], r[2])
+        print('C12 one tree, many renderings on %r\n  %s\n  %s' % (
+            rp['abbr'], '\n  '.join('%d: %s -> %r' % (i, canon_cfg(c), (r[1][i] if r[0] == 'ok' else r))
+                                    for i, c in enumerate(rp['sequence'])),
+            ('property fails: ' + bad[1]) if bad else 'property holds'))
         return 1 if bad else 0
     ra = impl_expand(rp['abbr'], rp['cfg_a'])
     rb = impl_expand(rp['abbr'], rp['cfg_b']) if rp.get('cfg_b') is not None else None
